@@ -1255,12 +1255,16 @@ static int callback(
     rule = &context->rules->rules_table[string->rule_idx];
 
     if (rule != NULL && string != NULL)
+    {
+      cli_mutex_lock(&output_mutex);
       fprintf(
           stderr,
           "warning: rule \"%s\": scanning with string %s is taking a very long "
           "time, it is either too general or very common.\n",
           rule->identifier,
           string->identifier);
+      cli_mutex_unlock(&output_mutex);
+    }
     else
       return CALLBACK_CONTINUE;
 
@@ -1276,12 +1280,14 @@ static int callback(
     string = (YR_STRING*) message_data;
     rule = &context->rules->rules_table[string->rule_idx];
 
+    cli_mutex_lock(&output_mutex);
     fprintf(
         stderr,
         "warning: rule \"%s\": too many matches for %s, results for this rule "
         "may be incorrect\n",
         rule->identifier,
         string->identifier);
+    cli_mutex_unlock(&output_mutex);
 
     if (fail_on_warnings)
       return CALLBACK_ERROR;
@@ -1290,7 +1296,11 @@ static int callback(
 
   case CALLBACK_MSG_CONSOLE_LOG:
     if (!disable_console_logs)
+    {
+      cli_mutex_lock(&output_mutex);
       _tprintf(_T("%" PF_S "\n"), (char*) message_data);
+      cli_mutex_unlock(&output_mutex);
+    }
     return CALLBACK_CONTINUE;
   }
 
